@@ -311,6 +311,10 @@ class ScribbleExec(O.Exec):
         got = self.raw(op["src"])
         other = self.raw(op["src"])  # a second result of the same read, held as well
         before = self.norm(got)
+        if op["mut"].get("i", 0) % 2:
+            # scribble on the SECOND result (the first call may have been the
+            # one that filled a memo, the second the one served from it)
+            got, other = other, got
         result = None
         if self.misbehave:
             result = scribble(got, op["mut"], self.junk(op["mut"]))
